@@ -194,6 +194,9 @@ func listing(prog int64, nops int, tbl int, withBase int, finalize int, split in
 			e.Label("L0") // resolve the reference so that Finalize succeeds
 			items = append(items, item{kind: kLabel, addr: e.PC(), off: e.Len(), text: "L0"})
 		}
+		// listings may be produced at any time; what was listed before Finalize must not stick
+		vp.Try(func() { e.WriteTextTo(&sink{}) })
+		vp.Try(func() { e.WriteHexTo(&sink{}) })
 		err := e.Finalize()
 		vp.Assume(err == nil)
 	}
